@@ -260,7 +260,7 @@ def embedded(run, rng, s: str, others: Tuple[str, str], engine: str) -> None:
 # what may stand directly before / after the quoted string: every other kind of token, with and without a gap
 CTX_PRE = ['#base ', '#include\t', '#base', 'bare ', 'bare', '{', '}', '[flag] ', '[flag]', '= ', '=', ', ', ',', '(a b) ', '(a b)', ': ',
            ':', '+ ', '+', '// c\n', '/* c */', '/* c */ ', '\n', '\r\n', '\r', '"o"', '"o" ', '\t', '"k" "v"\n', 'a\\', '!', '$x ', '|']
-CTX_SUF = [' #dir', '#dir', ' [flag]', '[flag]', ' // c', '// c', '\r\n', '\n', '\r', '}', '{', '"x"', ' "x"', '=', ',', '+', ':', '(z)',
+CTX_SUF = ['\x00', '\n\x00', ' #dir', '#dir', ' [flag]', '[flag]', ' // c', '// c', '\r\n', '\n', '\r', '}', '{', '"x"', ' "x"', '=', ',', '+', ':', '(z)',
            ' bare', 'bare', '/* c */']
 CTX_OPTS = [{}, {'string_bracket': True}, {'allow_star_comments': True}, {'colon_operator': True}, {'plus_operator': True},
             {'string_bracket': True, 'colon_operator': True, 'plus_operator': True, 'allow_star_comments': True}]
@@ -277,6 +277,10 @@ def neighbours(run, rng, s: str, engine: str, fixed: Any = None) -> None:
         except TokenSyntaxError:
             return None
 
+    if rng is not None and rng.random() < 0.2:
+        # NUL is an ordinary character for escape_text and the tokenizer (a BSP entity lump even ends in one)
+        k = rng.randrange(len(s) + 1)
+        s = s[:k] + '\x00' + s[k:]
     if rng is None:
         combos = [fixed]
     else:
